@@ -320,7 +320,7 @@ void target_run(void)
 	vk_reset();
 	vk_hooks.wait_entry = hook_wait_entry; vk_hooks.wait_block = hook_wait_block; vk_hooks.quiescent = hook_quiescent;
 	vk_hooks.read_post = hook_read_post; vk_hooks.poll_is_probe = hook_poll_is_probe;
-	vk_active = 1;
+	vk_active = 1; { extern int vlock_active; vlock_active = 1; }
 	iv_set_fatal_msg_handler(fatal_handler);
 	iv_init();
 	vz_log("setup:");
